@@ -69,7 +69,7 @@ def check_roundtrip(acc, case, key, cls, kind, events, index, columns, n, p):
         y = cls._format_sparse_output([(s, e, list(c)) for s, e, c in events])
     dense = cls.sparse_to_dense(y, index, columns)
     model = dets.dense_model(events, kind, n, p)
-    if not isinstance(dense, pd.DataFrame) or not dense.index.equals(index) or len(dense) != n:
+    if not isinstance(dense, pd.DataFrame) or not dense.index.equals(index) or tuple(dense.index.names) != tuple(index.names) or len(dense) != n:
         acc.violation("dense-index", case, f"sparse_to_dense output index {getattr(dense, 'index', None)!r} != given index", key)
         return
     if dense.shape != model.shape or not np.array_equal(dense.to_numpy(), model):
@@ -120,6 +120,7 @@ def check_case(acc, case):
                 kind = dets.kind_of(name)
                 key = {"fam": fam, "det": name, "default_index": case["index"] == "range"}
                 X = dets.frame(case["x"], case["index"], case["cols"])
+                names_before = tuple(X.index.names)
                 n, p = X.shape
                 det = dets.make_detector(name)
                 det.fit(X)
@@ -127,7 +128,7 @@ def check_case(acc, case):
                 events = dets.sparse_events(y, kind)
                 dense = det.transform(X)
                 model = dets.dense_model(events, kind, n, p)
-                if not dense.index.equals(X.index):
+                if not dense.index.equals(X.index) or tuple(dense.index.names) != tuple(names_before) or tuple(X.index.names) != tuple(names_before):
                     acc.violation("transform-index", case, f"transform(X).index {dense.index!r} != X.index", key)
                     return
                 if dense.shape != model.shape or not np.array_equal(dense.to_numpy(), model):
